@@ -2,7 +2,7 @@
 From Coq.Strings Require Import Byte String.
 From Coq Require Import List NArith Bool Arith.
 Import ListNotations.
-From V Require Import lib.Bytes model.Rpc.
+From V Require Import lib.Bytes model.Rpc spec.RpcWire.
 Require Extraction.
 Require Import ExtrOcamlBasic.
 
@@ -34,7 +34,8 @@ Fixpoint dec_prog (s : bytes) : list (kind * bytes) :=
   end.
 (* a schedule entry: a model action, or "the loop reads this response and, if somebody waits for its id,
    sends it" (ARead followed by ASend when the lookup succeeded) *)
-Inductive xaction := XA (a : action) | XDeliver (r : resp).
+(* XHFail / XBFail: the header's / body's conn.Write fails after taking min(k, given-1) bytes *)
+Inductive xaction := XA (a : action) | XDeliver (r : resp) | XHFail (t k : nat) | XBFail (t k : nat).
 Definition dec_action (tag : byte) (a b : nat) : option xaction :=
   if Byte.eqb tag x78 then Some (XA (ACtx a))                (* x *)
   else if Byte.eqb tag x71 then Some (XA (ASeq a))           (* q *)
@@ -50,6 +51,8 @@ Definition dec_action (tag : byte) (a b : nat) : option xaction :=
   else if Byte.eqb tag x52 then Some (XA (ARead (a, b)))     (* R *)
   else if Byte.eqb tag x53 then Some (XA ASend)              (* S *)
   else if Byte.eqb tag x44 then Some (XDeliver (a, b))       (* D *)
+  else if Byte.eqb tag x48 then Some (XHFail a b)            (* H *)
+  else if Byte.eqb tag x42 then Some (XBFail a b)            (* B *)
   else None.
 Fixpoint dec_trace (fuel : nat) (s : bytes) : option (list xaction) :=
   match fuel with
@@ -74,6 +77,8 @@ Definition xstep (s : state) (x : xaction) : option state :=
       | Some s1 => match run s1 with Some _ => step s1 ASend | None => Some s1 end
       | None => None
       end
+  | XHFail t k => step s (AHeaderFail t (Nat.min k (pred (length (frame_header (t_payload (threads s t)))))))
+  | XBFail t k => step s (ABodyFail t (Nat.min k (pred (length (t_payload (threads s t))))))
   end.
 
 (* run the schedule; on a disabled step report its index *)
@@ -94,6 +99,7 @@ Definition ret_code (o : option result) : bytes :=
   | Some Cancelled => bs "cancelled"
   | Some WriteFailed => bs "write-failed"
   | Some Sent => bs "sent"
+  | Some TransportErr => bs "transport-error"
   end.
 Definition thread_code (th : thread) : bytes :=
   dn (pc_code (t_pc th)) ++ sp ++ dn (t_id th) ++ sp ++ ret_code (t_ret th).
@@ -110,6 +116,37 @@ Definition conn (progb trb : bytes) : list bytes :=
       :: (match run s with None => bs "idle" | Some _ => bs "sending" end)
       :: dn (length (sent s))
       :: map (fun t => thread_code (threads s t)) (seq 0 (length prog))
+  end.
+
+(* ---------- sequences of writes over a connection that can fail: every thread is a notifier ---------- *)
+(* a schedule entry of 8 bytes: tag, thread (2 bytes), number (5 bytes, base 256) *)
+Definition n5 (a b c d e : byte) : nat :=
+  N.to_nat ((((bN a * 256 + bN b) * 256 + bN c) * 256 + bN d) * 256 + bN e).
+Fixpoint dec_trace8 (fuel : nat) (s : bytes) : option (list xaction) :=
+  match fuel with
+  | O => None
+  | S f =>
+      match s with
+      | [] => Some []
+      | tag :: a1 :: a0 :: b4 :: b3 :: b2 :: b1 :: b0 :: r =>
+          match dec_action tag (n2 a1 a0) (n5 b4 b3 b2 b1 b0), dec_trace8 f r with
+          | Some a, Some l => Some (a :: l)
+          | _, _ => None
+          end
+      | _ => None
+      end
+  end.
+Definition writes (trb : bytes) (payloads : list bytes) : list bytes :=
+  let prog := map (fun p => (KWrite, p)) payloads in
+  match dec_trace8 (S (length trb)) trb with
+  | None => [bs "bad-trace"]
+  | Some tr =>
+      let '(s, stuck) := exec_idx (init prog) tr 0 in
+      (match stuck with None => bs "ok" | Some i => bs "stuck " ++ dn i end)
+      :: b2 (down s)
+      :: (match lock s with None => bs "free" | Some t => dn t end)
+      :: wire s
+      :: map (fun t => ret_code (t_ret (threads s t))) (seq 0 (length prog))
   end.
 
 (* length of the remaining input after each successive frame (space separated decimals) *)
@@ -137,6 +174,10 @@ Definition dispatch (f : bytes) (a : list bytes) : list bytes :=
     end
   else if is f "trim" then [trim (arg 0 a)]
   else if is f "conn" then conn (arg 0 a) (arg 1 a)
+  else if is f "writes" then writes (arg 0 a) (tl a)
+  else if is f "wirespec" then
+    (* broken flag ("1"/"0"), the bytes on the connection, the delivered payloads *)
+    [b2 (wire_spec (tl (tl a)) (is (arg 0 a) "1") (arg 1 a))]
   else [bs "?"].
 
 Extraction "model.ml" dispatch.
